@@ -99,6 +99,19 @@ impl Profile {
         p.max_top = 12;
         p
     }
+    /// as many blocks and lets as `scope_heavy`, but with everything else switched on: arrays
+    /// with computed initializers (hidden temporaries and a scope of their own in the compiler),
+    /// object literals (method frames), arithmetic - scoping next to constructs that do their
+    /// own bookkeeping
+    pub fn scope_mixed() -> Profile {
+        let mut p = Profile::full();
+        p.name = "scope-mixed";
+        p.w_block = 40;
+        p.w_let = 40;
+        p.fault = 0;
+        p.max_top = 12;
+        p
+    }
     pub fn object_heavy() -> Profile {
         let mut p = Profile::full();
         p.name = "object";
